@@ -8,7 +8,8 @@ Definition mk_ending (k : nat) (a : Z) : ending :=
   match k with 0%nat => Return a | 1%nat => RaiseExc a | 2%nat => ExitNone | 3%nat => ExitInt a | 4%nat => ExitOther
   | 5%nat => RaiseUnsendable | 6%nat => ReturnUnsendable | 7%nat => HardExit a
   | 8%nat => RaiseExc a        (* an exception of a class that needs several constructor arguments *)
-  | _ => ReturnUnloadable a
+  | 9%nat => ReturnUnloadable a
+  | _ => RaiseExc a            (* 10: an exception whose truth value is false *)
   end.
 Definition mk_phase (k : nat) : phase :=
   match k with 0%nat => NoKill | 1%nat => KillBefore | 2%nat => KillDuring | 3%nat => KillBetween | _ => KillAfter end.
